@@ -66,6 +66,7 @@ type Exec struct {
 	postSeen        map[string]int
 	siteSeen        map[*Clause]int
 	assumeCovers    map[*Clause]int
+	volatileKeys    map[string]bool // heap keys of atomic pointers: shared, frame-exempt
 	specEval        int       // >0 while a function body is run to evaluate a specification expression: no obligations
 	inst            [2]string // binding of a function-typed parameter (instantiate clause)
 	ghostSeen       map[*GhostStmt]int
